@@ -186,6 +186,8 @@ func (d *OrderedDaemon) BackgroundWorker(name string, handler WorkerFunc, order 
 		return ErrDaemonAlreadyStopped
 	}
 
+	verifYield("backgroundworker-after-stopped-check")
+
 	d.lock.Lock()
 	defer d.lock.Unlock()
 
@@ -249,6 +251,8 @@ func (d *OrderedDaemon) Start() {
 	if d.IsStopped() {
 		return
 	}
+
+	verifYield("start-after-stopped-check")
 
 	d.lock.Lock()
 	defer d.lock.Unlock()
